@@ -96,8 +96,18 @@ func compareValuesWithNullForEquality
 extern evaluateNode
   props C06 C13
 
-extern evaluateNodeValue
+// the value of a node: a text literal is its text without the enclosing quotes (the empty literal included), a number literal
+// is what ParseFloat makes of it, everything else goes to the evaluator of its own kind with this node and this row
+func evaluateNodeValue
   props C06 C13
+  option assumed_frame
+  before evaluateFieldValue a-column-node-is-looked-up-in-this-row: $arg0 == node && $arg1 == data
+  before evaluateOperatorValue an-operator-node-is-evaluated-on-this-row: $arg0 == node && $arg1 == data
+  before evaluateFunctionValue a-call-node-is-evaluated-on-this-row: $arg0 == node && $arg1 == data
+  before evaluateCaseExpression a-case-node-is-evaluated-on-this-row: $arg0 == node && $arg1 == data
+  before evaluateNodeValue a-parenthesis-evaluates-what-it-encloses-on-this-row: $arg0 == node.Left && $arg1 == data
+  atreturn a-text-literal-is-its-text-without-the-quotes-the-empty-literal-included: node != nil && old(node.Type) == TypeString ==> result1 == nil && result0 == boxof(ite(len(old(node.Value)) >= 2 && (old(node.Value)[0] == 39 || old(node.Value)[0] == 34), old(node.Value)[1:len(old(node.Value)) - 1], old(node.Value)), string)
+  atreturn no-node-is-an-error: node == nil ==> result1 != nil
 
 extern evaluateBoolNode
   props C06 C13
